@@ -173,7 +173,7 @@ Proof.
 Qed.
 
 Lemma handle_at_dest : forall d h p,
-  fw_eval (nd_fw d) (p_ts p) = FwAccept -> beq_bytes (p_tn p) (nd_id d) = true ->
+  fw_eval (nd_fw d) p = FwAccept -> beq_bytes (p_tn p) (nd_id d) = true ->
   reserved (p_ts p) = false ->
   handle d h p = if mem (p_ts p) (nd_bound d) then HDeliver
                  else if beq_bytes (p_fn p) (nd_id d) then HSyncUnknown else HNotice PUnknown.
@@ -183,20 +183,20 @@ Proof.
 Qed.
 
 Lemma handle_publish : forall n h q,
-  fw_eval (nd_fw n) S_UNREACH = FwAccept -> p_ts q = S_UNREACH -> beq_bytes (p_tn q) (nd_id n) = true ->
+  fw_eval (nd_fw n) q = FwAccept -> p_ts q = S_UNREACH -> beq_bytes (p_tn q) (nd_id n) = true ->
   handle n h q = HPublish.
 Proof.
   intros n h q Hfw Hts Ht. unfold handle. rewrite Hts, Hfw, Ht, unreach_not_ping.
   now rewrite beq_bytes_refl.
 Qed.
 
-Lemma handle_drop : forall nd h p, fw_eval (nd_fw nd) (p_ts p) = FwDrop -> handle nd h p = HNothing.
+Lemma handle_drop : forall nd h p, fw_eval (nd_fw nd) p = FwDrop -> handle nd h p = HNothing.
 Proof. intros nd h p H. unfold handle. now rewrite H. Qed.
 
 Lemma notify_complete : forall w rt mh a p pb back n,
   wf_world w = true ->
   rt a (p_fn p) = back ++ [p_fn p] -> transit_ok w back mh (notice_pkt a p) = true ->
-  find_node w (p_fn p) = Some n -> fw_eval (nd_fw n) S_UNREACH = FwAccept ->
+  find_node w (p_fn p) = Some n -> fw_eval (nd_fw n) (notice_pkt a p) = FwAccept ->
   mem (json_rt (p_fs p)) (nd_bound n) = true -> json_rt (p_fn p) = p_fn p ->
   notify w rt mh a p pb = [(p_fn p, json_rt (p_fs p), notif_of a p pb)].
 Proof.
@@ -218,10 +218,10 @@ Theorem unknown_service_is_reported : forall w rt mh hops p f mid back d n,
   beq_bytes (p_fn p) (p_tn p) = false ->
   too_long (p_fs p) || too_long (p_ts p) = false ->
   rt (p_fn p) (p_tn p) = mid ++ [p_tn p] -> transit_ok w mid hops p = true ->
-  find_node w (p_tn p) = Some d -> fw_eval (nd_fw d) (p_ts p) = FwAccept ->
+  find_node w (p_tn p) = Some d -> fw_eval (nd_fw d) p = FwAccept ->
   reserved (p_ts p) = false -> mem (p_ts p) (nd_bound d) = false ->
   rt (p_tn p) (p_fn p) = back ++ [p_fn p] -> transit_ok w back mh (notice_pkt (p_tn p) p) = true ->
-  find_node w (p_fn p) = Some n -> fw_eval (nd_fw n) S_UNREACH = FwAccept ->
+  find_node w (p_fn p) = Some n -> fw_eval (nd_fw n) (notice_pkt (p_tn p) p) = FwAccept ->
   mem (p_fs p) (nd_bound n) = true ->
   send w rt mh hops p f = mkout SNone None false [(p_fn p, p_fs p, notif_of (p_tn p) p PUnknown)].
 Proof.
@@ -245,10 +245,10 @@ Theorem closed_while_waiting_is_reported : forall w rt mh hops p mid back d n,
   beq_bytes (p_fn p) (p_tn p) = false ->
   too_long (p_fs p) || too_long (p_ts p) = false ->
   rt (p_fn p) (p_tn p) = mid ++ [p_tn p] -> transit_ok w mid hops p = true ->
-  find_node w (p_tn p) = Some d -> fw_eval (nd_fw d) (p_ts p) = FwAccept ->
+  find_node w (p_tn p) = Some d -> fw_eval (nd_fw d) p = FwAccept ->
   reserved (p_ts p) = false -> mem (p_ts p) (nd_bound d) = true ->
   rt (p_tn p) (p_fn p) = back ++ [p_fn p] -> transit_ok w back mh (notice_pkt (p_tn p) p) = true ->
-  find_node w (p_fn p) = Some n -> fw_eval (nd_fw n) S_UNREACH = FwAccept ->
+  find_node w (p_fn p) = Some n -> fw_eval (nd_fw n) (notice_pkt (p_tn p) p) = FwAccept ->
   mem (p_fs p) (nd_bound n) = true ->
   send w rt mh hops p FClosedWaiting
   = mkout SNone None false [(p_fn p, p_fs p, notif_of (p_tn p) p PUnknown)].
@@ -276,7 +276,7 @@ Proof. intros. unfold send_gen. now rewrite H. Qed.
 Theorem drop_is_silent : forall fixed w rt mh hops p f mid d rest nd,
   too_long (p_fs p) || too_long (p_ts p) = false ->
   rt (p_fn p) (p_tn p) = mid ++ d :: rest -> transit_ok w mid hops p = true ->
-  find_node w d = Some nd -> fw_eval (nd_fw nd) (p_ts p) = FwDrop ->
+  find_node w d = Some nd -> fw_eval (nd_fw nd) p = FwDrop ->
   send_gen fixed w rt mh hops p f = quiet.
 Proof.
   intros fixed w rt mh hops p f mid d rest nd Hl Hrt Htr Hf Hfw. unfold send_gen. rewrite Hl, Hrt.
@@ -287,7 +287,7 @@ Qed.
 Corollary dropped_dial_is_not_cancelled : forall w rt mh p f mid d rest nd,
   too_long (p_fs p) || too_long (p_ts p) = false ->
   rt (p_fn p) (p_tn p) = mid ++ d :: rest -> transit_ok w mid mh p = true ->
-  find_node w d = Some nd -> fw_eval (nd_fw nd) (p_ts p) = FwDrop ->
+  find_node w d = Some nd -> fw_eval (nd_fw nd) p = FwDrop ->
   dial w rt mh p f = DTimesOut.
 Proof.
   intros. unfold dial, send. erewrite drop_is_silent by eassumption. reflexivity.
@@ -343,10 +343,10 @@ Corollary dial_to_unbound_service_is_cancelled : forall w rt mh p f mid back d n
   beq_bytes (p_fn p) (p_tn p) = false ->
   too_long (p_fs p) || too_long (p_ts p) = false ->
   rt (p_fn p) (p_tn p) = mid ++ [p_tn p] -> transit_ok w mid mh p = true ->
-  find_node w (p_tn p) = Some d -> fw_eval (nd_fw d) (p_ts p) = FwAccept ->
+  find_node w (p_tn p) = Some d -> fw_eval (nd_fw d) p = FwAccept ->
   reserved (p_ts p) = false -> mem (p_ts p) (nd_bound d) = false ->
   rt (p_tn p) (p_fn p) = back ++ [p_fn p] -> transit_ok w back mh (notice_pkt (p_tn p) p) = true ->
-  find_node w (p_fn p) = Some n -> fw_eval (nd_fw n) S_UNREACH = FwAccept ->
+  find_node w (p_fn p) = Some n -> fw_eval (nd_fw n) (notice_pkt (p_tn p) p) = FwAccept ->
   mem (p_fs p) (nd_bound n) = true ->
   dial w rt mh p f = DCancelled.
 Proof.
@@ -393,7 +393,7 @@ Proof. vm_compute. auto. Qed.
 (* non-vacuity of the hypotheses of unknown_service_is_reported on a three-node line with an
    unrelated socket everywhere *)
 Example unknown_service_hypotheses_hold :
-  let w := [mknode (str "a") [str "src"; str "x"] []; mknode (str "m") [str "y"] [(str "blk", FwDrop)];
+  let w := [mknode (str "a") [str "src"; str "x"] []; mknode (str "m") [str "y"] [mkrule None None None (Some (str "blk")) FwDrop];
             mknode (str "b") [str "z"] []] in
   let rt := line_route [str "a"; str "m"; str "b"] in
   let p := mkpkt (str "a") (str "src") (str "b") (str "tgt") in
